@@ -111,6 +111,11 @@ class Frame:
         self.loop_ordinal = 0
 
 
+import itertools as _itertools  # noqa: E402
+
+_HIGHER_ORDER = (sorted, min, max, map, filter, _itertools.groupby)
+
+
 def contains_sym(v, depth=0) -> bool:
     if isinstance(v, (Sym, BoundMethod, SymMethod, Closure, DictProxy, SuperProxy)):
         return True
@@ -149,11 +154,15 @@ class Interp:
         if self.call_depth > 40:
             raise OutOfSubset('recursion depth')
         saved = self.ctx.current_fn
+        if not hasattr(self, 'frame_stack'):
+            self.frame_stack = []
+        self.frame_stack.append(fr)
         try:
             self.exec_block(node.body, fr)
         except _Return as r:
             return r.value
         finally:
+            self.frame_stack.pop()
             self.call_depth -= 1
             self.ctx.current_fn = saved
         return None
@@ -971,6 +980,13 @@ class Interp:
         func = self.eval(e.func, fr)
         # exception constructors: message text is dropped in symbolic mode (DESIGN 4.1)
         if isinstance(func, type) and issubclass(func, BaseException) and not self.concrete:
+            # ... but the argument expressions are still evaluated: building the message can itself raise (an index into an empty list,
+            # a missing attribute) and that exception, not the intended one, is what propagates
+            for a in list(e.args) + [k.value for k in e.keywords]:
+                try:
+                    self.eval(a.value if isinstance(a, ast.Starred) else a, fr)
+                except OutOfSubset:
+                    pass            # formatting of a symbolic value that the encoder does not model: the text is dropped as before
             exc = SExc(func, origin=f'L{e.lineno}')
             exc.line = e.lineno
             # keep a first argument that is a plain name (e.g. KeyError(period)) for contracts that talk about it
@@ -1032,6 +1048,25 @@ class Interp:
             raise OutOfSubset(f'call of a symbolic value {func!r}')
         if hasattr(func, 'vc_call'):
             return func.vc_call(self, args, kwargs, node)
+        # higher-order library functions given a function of the code under analysis (sorted(xs, key=lambda ...), itertools.groupby, map,
+        # filter, min/max with key): the library function itself runs for real, calling back into the interpreter for the callable
+        if func in _HIGHER_ORDER and any(isinstance(a, (Closure, BoundMethod)) for a in list(args) + list(kwargs.values())):
+            def wrap(f):
+                return (lambda *a, **k: self.call(f, list(a), dict(k), node)) if isinstance(f, (Closure, BoundMethod)) else f
+            wa = [wrap(a) for a in args]
+            wk = {k: wrap(v) for k, v in kwargs.items()}
+            if not contains_sym(wa) and not contains_sym(wk):
+                r = self.real_call(lambda: func(*wa, **wk))
+                if func in (map, filter) or func is _itertools.groupby:
+                    # materialise lazily evaluated results now (the callbacks belong to this point of the path)
+                    r = self.real_call(lambda: [(k_, list(g_)) for k_, g_ in r] if func is _itertools.groupby else list(r))
+                return r
+        # locals() / globals(): the calling frame's name bindings (a snapshot, as in CPython) / the globals of the function's module
+        if func is builtins.locals and not args and getattr(self, 'frame_stack', None):
+            return dict(self.frame_stack[-1].locals)
+        if func is builtins.globals and not args and getattr(self, 'frame_stack', None):
+            mod = self.frame_stack[-1].fi.module
+            return vars(mod) if mod is not None and not isinstance(mod, dict) else (mod if isinstance(mod, dict) else {})
         # real callable
         if not contains_sym(args) and not contains_sym(kwargs):
             fi = from_real(func) if (inspect.isfunction(func) and not self.concrete) else None
